@@ -7,7 +7,7 @@ import random
 from dataclasses import dataclass
 from typing import Any, Dict, Iterator, List, Optional, Tuple
 
-from .schema import Alias, Const, Enum, Field, Import, Message, Proto, TArray, TBase, TRef
+from .schema import Alias, Const, Enum, Field, Import, Message, Proto, TArray, TBase, TRef, layout
 
 
 @dataclass
@@ -212,6 +212,21 @@ def f_shape_core() -> List[Case]:
         m = Message("M", [Field(TRef(lib_e, f"{q}.Color"), "c", 1), Field(TRef(lib_m, f"{q}.Pt"), "p", 2), Field(TRef(lib_a, f"{q}.Ts"), "t", 3), Field(TArray(TRef(lib_m, f"{q}.Pt"), 2), "ps", 4), Field(U(3), "z", 5)])
         add(f"imp_{q}", [m], ("import",), imports=[Import(lib, as_name)])
 
+    # types nested in a message of the imported file, used from the importing file (with and without `as`)
+    n_kind = _e("Kind", 2, [0, 1, 3])
+    n_inner = Message("Inner", [Field(U(3), "v", 1), Field(I(4), "w", 2)])
+    n_outer = Message("Outer", [Field(TRef(n_inner), "i", 1), Field(TRef(n_kind), "k", 2), Field(I(6), "s", 3)], nested=[n_kind, n_inner])
+    nlib = Proto("deep", [n_outer])
+    for as_name in (None, "dp"):
+        q = as_name or "deep"
+        m = Message("M", [Field(TRef(n_inner, f"{q}.Outer.Inner"), "i", 1), Field(TRef(n_kind, f"{q}.Outer.Kind"), "k", 2), Field(TRef(n_outer, f"{q}.Outer"), "o", 3),
+                          Field(TArray(TRef(n_inner, f"{q}.Outer.Inner"), 2), "is_", 4), Field(TArray(TRef(n_kind, f"{q}.Outer.Kind"), 2), "ks", 5), Field(U(5), "z", 6)])
+        add(f"imp_nested_{q}", [m], ("import",), imports=[Import(nlib, as_name)])
+
+    # an import used only for its constants
+    clib = Proto("limits", [Const("CAP", "3", 3), Const("WIDE", "2 * 2", 4)])
+    add("imp_const_only", [Message("M", [Field(TArray(BY, 3, cap_text="limits.CAP"), "raw", 1), Field(TArray(U(5), 4, cap_text="limits.WIDE"), "vs", 2), Field(U(3), "t", 3)])], ("import", "const"), imports=[Import(clib, None)])
+
     # 6. field-number permutations (declaration order != number order)
     base = [(U(3), "a"), (I(13), "b"), (B, "c"), (U(17), "d")]
     for pi, perm in enumerate(itertools.permutations(range(4))):
@@ -292,6 +307,23 @@ def f_shape_core() -> List[Case]:
 
 
 def rand_case(rng: random.Random, idx: int, traditional: bool = False, allow_enum: bool = True) -> Case:
+    """random schema; redrawn (same generator state, so still a function of the seed) while a checked message has more
+    enum-member combinations than the per-message path budget of the Python engine can enumerate"""
+    for _ in range(50):
+        c = _rand_case(rng, idx, traditional, allow_enum)
+        worst = 1
+        for m, _ch in c.messages:
+            prod = 1
+            for l in layout(m).leaves():
+                if l.kind == "enum" and l.enum:
+                    prod *= len(l.enum.members) + 1
+            worst = max(worst, prod)
+        if worst <= 300:
+            return c
+    return _rand_case(rng, idx, traditional, False)
+
+
+def _rand_case(rng: random.Random, idx: int, traditional: bool = False, allow_enum: bool = True) -> Case:
     defs: List[Any] = []
     enums: List[Enum] = []
     aliases: List[Alias] = []
@@ -478,6 +510,13 @@ def evo_bases() -> List[Case]:
     e = _e("Mode", 3, [0, 2, 5])
     m4 = Message("M", [Field(U(1), "h", 1), Field(TArray(TRef(e), 2, ext=True), "modes", 2), Field(TArray(I(11), 3, ext=True), "vals", 3), Field(TArray(TBase("byte"), 2, ext=True), "raw", 4)])
     bases.append(case_of("evo_tail", Proto("evo_tail", [e, m4]), ("ext",), only=["M"]))
+    # every element kind in a grown array, each followed by a field that must still be found: bool (1 bit in 1 byte),
+    # byte, a sub-byte uint, an alias of an int, an alias of bool
+    flag = Alias("Flag", TBase("bool"))
+    tick = Alias("Tick", I(13))
+    m6 = Message("M", [Field(TArray(TBase("bool"), 3, ext=True), "flags", 1), Field(U(5), "a", 2), Field(TArray(TBase("byte"), 2, ext=True), "raw", 3), Field(I(6), "b", 4),
+                       Field(TArray(U(3), 2, ext=True), "tri", 5), Field(TBase("bool"), "c", 6), Field(TArray(TRef(flag), 2, ext=True), "fl2", 7), Field(TArray(TRef(tick), 1, ext=True), "ticks", 8), Field(U(9), "t", 9)])
+    bases.append(case_of("evo_elem_kinds", Proto("evo_elem_kinds", [flag, tick, m6]), ("ext",), only=["M"]))
     return bases
 
 
@@ -651,7 +690,7 @@ def rw_alias_inline(p: Proto) -> bool:
         for f in m.fields:
             t = f.type
             if isinstance(t, TRef) and isinstance(t.target, Alias) and "." not in (t.text_ or ""):
-                f.type = copy.deepcopy(t.target.to) if isinstance(t.target.to, TBase) else TArray(t.target.to.el, t.target.to.cap, t.target.to.ext, t.target.to.cap_text)
+                f.type = copy.deepcopy(t.target.to) if isinstance(t.target.to, TBase) else TArray(copy.copy(t.target.to.el), t.target.to.cap, t.target.to.ext, t.target.to.cap_text)  # never share a TRef: later rewrites edit its text
                 ch = True
             elif isinstance(t, TArray) and isinstance(t.el, TRef) and isinstance(t.el.target, Alias) and isinstance(t.el.target.to, TBase) and "." not in (t.el.text_ or ""):
                 t.el = copy.deepcopy(t.el.target.to)
@@ -704,10 +743,20 @@ def rw_hoist(p: Proto) -> bool:
 def rw_to_import(p: Proto) -> bool:
     if p.imports:
         return False
+    def uses_const(d: Any) -> bool:
+        # capacities written as constant names refer to constants of the main file, which stay there
+        def rec(t: Any) -> bool:
+            return isinstance(t, TArray) and (bool(t.cap_text) or rec(t.el))
+        if isinstance(d, Alias):
+            return rec(d.to)
+        if isinstance(d, Message):
+            return any(rec(f.type) for m in _all_msgs([d]) for f in m.fields)
+        return False
+
     movable = []
     for d in p.defs:
         if isinstance(d, (Enum, Alias)) or (isinstance(d, Message) and not d.nested):
-            if all(any(x is y for y in movable) for x in _deps(d)):
+            if all(any(x is y for y in movable) for x in _deps(d)) and not uses_const(d):
                 movable.append(d)
         if len(movable) >= 2:
             break
@@ -730,8 +779,11 @@ def rw_const_expr(p: Proto) -> bool:
     for h, a in _walk_types(p):
         t = getattr(h, a)
         if isinstance(t, TArray) and not t.cap_text:
-            if k % 2 == 0:
+            if k % 3 == 0:
                 c = Const(f"CAP_{k}", f"({t.cap} + {k + 3}) * 2 / 2 - {k + 3}", t.cap)
+            elif k % 3 == 2:
+                # exact integer division far beyond what a double represents (2^53 + 1 is odd)
+                c = Const(f"CAP_{k}", f"({t.cap} + 9007199254740993) / 1 - 9007199254740993 + 36028797018963969 / 36028797018963969 - 1", t.cap)
             else:
                 c = Const(f"CAP_{k}", f"0x{t.cap:x}", t.cap)
             consts.append(c)
@@ -771,6 +823,23 @@ def rw_rename_shadow(p: Proto) -> bool:
                             t.text_ = None
                     return True
     return False
+
+
+def _unshare_types(p: Proto) -> None:
+    """give every type slot its own TRef / TArray / TBase node (targets keep their identity): a rewrite that edits the
+    text of one reference must never edit another one through a shared node"""
+    def clone(t: Any) -> Any:
+        if isinstance(t, TArray):
+            return TArray(clone(t.el), t.cap, t.ext, t.cap_text)
+        return copy.copy(t)
+    for d in p.defs:
+        if isinstance(d, Alias):
+            d.to = clone(d.to)
+    for m in _all_msgs(p.defs):
+        for f in m.fields:
+            f.type = clone(f.type)
+    for imp in p.imports:
+        _unshare_types(imp.proto)
 
 
 REWRITES = {
@@ -814,8 +883,10 @@ def f_rw(quick: bool, seed: int) -> List[RwCase]:
                 if rw == "style":
                     style = STYLE_B
                     applied.append(rw)
-                elif REWRITES[rw](p2):
-                    applied.append(rw)
+                else:
+                    _unshare_types(p2)
+                    if REWRITES[rw](p2):
+                        applied.append(rw)
             if not applied:
                 continue
             # the rewritten main proto keeps its file name unless renamed explicitly
